@@ -188,6 +188,18 @@ def mdischarge(m, unit, obligations, twins=(), timeout_ms=30000, replay=None, ex
             nunk += 1
     for n, c in twins:
         res['twins'][n] = str(m.solve(c, timeout_ms)[0])
+    # self-test of the replay driver: on a model of the premises (all obligations just proved unsat) the native run must NOT report a
+    # violation - otherwise the driver, not the code, is broken and nothing it "confirms" can be believed
+    if replay is not None and not res['violations'] and not res['unreproduced'] and nunk == 0:
+        try:
+            r0, model0 = m.solve(list(prefer) if prefer else z3.BoolVal(True), timeout_ms)
+            if r0 != z3.sat:
+                r0, model0 = m.solve(z3.BoolVal(True), timeout_ms)
+            if r0 == z3.sat:
+                conf, why, payload = replay(model0, dict(name='(replay self-test)', kind='selftest'))
+                res['validated'] = dict(ok=not conf, why=why)
+        except Exception as e:      # noqa
+            res['validated'] = dict(ok=None, why='replay self-test did not run: %s: %s' % (type(e).__name__, e))
     if res['violations']:
         res['status'] = 'violation'
     elif res['unreproduced']:
